@@ -2,6 +2,7 @@
 // SubtractReactive, Counter, SortedSet, EvictionState, WaitGroup).
 //
 //	hx-c14 lock  --n N --len L   lockstep histories: every observation after every call goes to cases.v
+//	hx-c14 sched --n N           forced schedules on DerivedVariable2..4: writers held at callback boundaries (sched.go)
 //	hx-c14 conc  --runs R        free-running writers (<= 4 goroutines) + quiescence barrier, judged in Go against
 //	                             the defining function; directed schedules for D14b / D14c; all under watchdogs
 package main
@@ -165,6 +166,20 @@ func main() {
 	case "conc":
 		st := vx.NewStats("free-running runs: 2-4 goroutines write different inputs / sources / weights / elements concurrently (structural changes interleaved), quiescence barrier, then the derived value is compared with its defining function of the inputs' final values; every run under a watchdog; distinct = distinct (kind, script); non-trivial = at least two goroutines performed an effective write")
 		concAll(r, st, *runs)
+		if err := st.Write(*stats); err != nil {
+			vx.Die("%v", err)
+		}
+	case "sched":
+		st := vx.NewStats("forced schedules on DerivedVariable2..4 (+ inheriting variable, optionally inheriting inputs): writer A held at every boundary where caller-supplied code runs inside a write (Get of another input before/after the read, compute entry, subscribers of the written input before/after the derived variable, subscribers of the derived / inheriting variable) x writer B on every input, B held at a boundary of its own with both release orders, a third writer; B runs until returned or parked on a lock (goroutine wait state, no timing); judged after all writers returned: derived == compute(current inputs), inheriting == derived; two-input scenarios are also replayed as schedules of the interleaving model DVI; distinct = distinct scenario; non-trivial = A was held and another writer ran meanwhile")
+		cf := &vx.CasesFile{
+			Header: "From Coq Require Import ZArith NArith List Bool.\nFrom Verif.C14_Derived Require Import Model ModelDVI Corr.\nImport ListNotations.\n",
+			Type:   "case",
+			Footer: "Definition M := Eval vm_compute in mismatches cases.\nPrint M.\n",
+		}
+		schedAll(r, st, cf, *n)
+		if err := cf.Write(*out); err != nil {
+			vx.Die("%v", err)
+		}
 		if err := st.Write(*stats); err != nil {
 			vx.Die("%v", err)
 		}
